@@ -4,7 +4,7 @@ import os
 import subprocess
 
 from checks.c01 import load_corpus
-from gen.progs import gen_builtin_program, gen_layout_program, gen_order_program, gen_program
+from gen.progs import gen_builtin_program, gen_infer_program, gen_layout_program, gen_order_program, gen_program
 from gen.rng import Rng
 from lib import opstable
 from lib.e2e import run_pipeline, same_behaviour
@@ -87,6 +87,8 @@ def run(tier, seed, replay=None):
                 progs.append(gen_builtin_program(rng.fork()))        # the runtime libraries of both back ends
             elif i % 10 == 5:
                 progs.append(gen_order_program(rng.fork()))          # evaluation order of receivers / callees / arguments / operands
+            elif i % 10 == 9:
+                progs.append(gen_infer_program(rng.fork()))          # generic calls, method values, partly annotated lambdas
             elif i % 10 == 7:
                 progs.append(gen_layout_program(rng.fork(), single_field=False))    # enum representations (TS reads tags, wasm tests types)
             else:
